@@ -48,13 +48,7 @@ func boundaryHeights(hs ...uint32) []uint32 {
 	return res
 }
 
-func e2e(run *lib.Run, st *lib.Stats, rng *lib.Rng) {
-	f, err := fixture.New(fixture.Options{})
-	if err != nil {
-		st.Fail("c01:e2e-fixture", "cannot start the chain fixture: "+err.Error(), nil)
-		return
-	}
-	defer f.Close()
+func e2e(run *lib.Run, st *lib.Stats, rng *lib.Rng, f *fixture.Fixture) {
 	params := f.Params
 	nft := params.DPoSConfiguration.NFTStartHeight
 
@@ -239,6 +233,60 @@ func e2e(run *lib.Run, st *lib.Stats, rng *lib.Rng) {
 			check("transfer/duplicate-input", tx2, 2, []int64{genesisValue}, append(append([]int64{}, ov...), ov...))
 		}
 	}
+	// ---- CRCAppropriation end to end: fund the CR assets address in a real block, then the
+	// appropriation through CheckTransactionSanity + CheckTransactionContext (validation ends in
+	// SpecialContextCheck: no fee check, no signature)
+	func() {
+		assets, expenses := *params.CRConfiguration.CRAssetsProgramHash, *params.CRConfiguration.CRExpensesProgramHash
+		const V = int64(100000000000) // 1000 ELA
+		fund, err := f.Transfer([]fixture.In{{Op: f.GenesisOut, Key: 0}},
+			[]fixture.Out{{To: &assets, Value: elacommon.Fixed64(V)}, {To: &assets, Value: elacommon.Fixed64(V)}, {Key: 0, Value: elacommon.Fixed64(genesisValue - 2*V - 100)}}, 777)
+		if err != nil {
+			st.Fail("c01:e2e-fixture", "funding transfer: "+err.Error(), nil)
+			return
+		}
+		b, err := f.BuildBlock(parent, []interfaces.Transaction{fund}, fixture.BlockOpt{Miner: 3})
+		if err == nil {
+			_, _, err = f.ProcessBlock(b)
+		}
+		if err != nil {
+			st.Fail("c01:e2e-fixture", "cannot connect the funding block: "+err.Error(), nil)
+			return
+		}
+		parent = b
+		origNeed, origAmount := f.Committee.NeedAppropriation, f.Committee.AppropriationAmount
+		defer func() { f.Committee.NeedAppropriation, f.Committee.AppropriationAmount = origNeed, origAmount }()
+		f.Committee.NeedAppropriation = true
+		hs := boundaryHeights(params.CRConfiguration.CRCommitteeStartHeight, params.PublicDPOSHeight)
+		hs = append(hs, nft+1)
+		type ap struct {
+			nIn  int
+			outs []int64
+		}
+		for _, c := range []ap{{1, []int64{30, V - 30}}, {2, []int64{30, 2*V - 30}}, {1, []int64{30, V - 29}}, {1, []int64{30, V - 31}}, {1, []int64{V, 0}},
+			{1, []int64{V + 1, -1}}, {1, []int64{p62, p62}}, {2, []int64{max, max}}, {1, []int64{30}}, {1, []int64{30, V - 30, 0}}, {0, []int64{0, 0}}, {0, []int64{5, 0}}} {
+			var ins []*common2.Input
+			var inVals []int64
+			for j := 0; j < c.nIn; j++ {
+				ins = append(ins, &common2.Input{Previous: common2.OutPoint{TxID: fund.Hash(), Index: uint16(j)}})
+				inVals = append(inVals, V)
+			}
+			var os []*common2.Output
+			for j, v := range c.outs {
+				ph := assets
+				if j == 0 {
+					ph = expenses
+				}
+				os = append(os, &common2.Output{AssetID: core.ELAAssetID, Value: elacommon.Fixed64(v), ProgramHash: ph, Type: common2.OTNone, Payload: &outputpayload.DefaultOutput{}})
+			}
+			f.Committee.AppropriationAmount = elacommon.Fixed64(c.outs[0])
+			for _, h := range hs {
+				tx := functions.CreateTransaction(common2.TxVersion09, common2.CRCAppropriation, 0, &payload.CRCAppropriation{},
+					[]*common2.Attribute{}, ins, os, 0, []*program.Program{})
+				check("appropriation", tx, h, inVals, c.outs)
+			}
+		}
+	}()
 	st.Extra["e2e_cases"] = total
 	st.Extra["e2e_accepted"] = accepted
 	if accepted == 0 {
